@@ -30,8 +30,17 @@ class ScriptPass(AbstractPass):
         if self.newfix is not None:
             with open(test_case, 'rb') as f:
                 backup = f.read()
-            with open(test_case, 'wb') as f:
-                f.write(self.newfix.encode('latin-1'))
+            if self.via_temp:
+                # as LinesPass.__format does: write a 0600 temp file and shutil.copy it over the test case
+                import shutil
+                import tempfile
+                with tempfile.NamedTemporaryFile(mode='wb', delete=False, dir=os.path.dirname(test_case)) as tf:
+                    tf.write(self.newfix.encode('latin-1'))
+                shutil.copy(tf.name, test_case)
+                os.unlink(tf.name)
+            else:
+                with open(test_case, 'wb') as f:
+                    f.write(self.newfix.encode('latin-1'))
             ok = True
             if check_sanity:
                 from cvise.utils.error import InsaneTestCaseError
